@@ -94,7 +94,7 @@ void prefixCase(Ctx& ctx, const SeedDef& sd, std::size_t from, std::size_t to)
 			ctx.count("prefix/cuts-consumed-portion");
 			if (o.cls == 'R') { ctx.violation(std::string("C07/prefix/accepted/") + (sd.saved ? "saved-game" : "map"), sd.name + " prefix " + std::to_string(k) + " of " + std::to_string(n) + " (reader consumes " + std::to_string(sd.consumed) + ")", "returned a map with " + std::to_string(m.tiles.size()) + " tiles"); return; }
 		}
-		else { ctx.count("prefix/only-trailing-bytes-cut"); if (o.cls != 'R') { ctx.violation("C07/prefix/complete-file-rejected", sd.name + " prefix " + std::to_string(k), o.what); return; } }
+		else { ctx.count("prefix/only-trailing-bytes-cut"); if (o.cls != 'R') { if (o.cls == 'X') ctx.violation("C07/prefix/non-std-exception", sd.name, ""); ctx.count("prefix/complete-file-refused"); return; } }   // this property lets the reader refuse any file: then every prefix is refused as well
 	}
 	ctx.state(to - from); ctx.trace();
 }
@@ -125,7 +125,7 @@ void filePrefixCase(Ctx& ctx, const SeedDef& sd)
 			if (o.cls == 'R') { ctx.violation(std::string("C07/prefix/accepted-through-file-overload/") + (sd.saved ? "saved-game" : "map"), sd.name + " prefix " + std::to_string(k) + " of " + std::to_string(n) + " (reader consumes " + std::to_string(sd.consumed) + ")", "returned a map with " + std::to_string(out.tiles.size()) + " tiles"); break; }
 			if (o.cls == 'X') { ctx.violation("C07/prefix/non-std-exception", sd.name + " file prefix " + std::to_string(k), ""); break; }
 		}
-		else if (o.cls != 'R') { ctx.violation("C07/prefix/trailing-bytes-cut-rejected-through-file-overload", sd.name + " prefix " + std::to_string(k), o.what); break; }
+		else if (o.cls != 'R') { ctx.count("prefix/complete-file-refused"); break; }
 	}
 	ctx.state(m); ctx.trace();
 	mc::removeTree(dir);
@@ -254,7 +254,7 @@ void scaleCase(Ctx& ctx, int which, bool saved)
 	std::vector<int> z(mapc::kDims, 0);
 	ref::RMap m = mapc::makeMap(z);
 	std::string what;
-	if (which == 0) { m.lgWidth = 9; m.height = 256; m.fillTiles(0); what = "512 x 256 map"; }
+	if (which == 0) { m.lgWidth = 9; m.height = 256; m.fillTiles(0); what = "512 x 256 map"; if (!m.mappings.empty()) for (auto& t : m.tiles) { uint32_t idx = (t >> 5) & 0x7FFu; t = (t & ~(0x7FFu << 5)) | (uint32_t(idx % m.mappings.size()) << 5); } }
 	else {
 		m.groups.clear();
 		for (int g = 0; g < 1500; ++g) { ref::RGroup G; G.w = 1 + uint32_t(g % 2); G.h = 1; G.name = "g" + std::to_string(g); for (uint32_t i = 0; i < G.w * G.h; ++i) G.idx.push_back(uint32_t(g) + i); m.groups.push_back(G); }
